@@ -1,4 +1,10 @@
 //! Independent reference model written from spec/Candid.md. Shares no code
 //! with candid / candid_parser.
+pub mod rcoerce;
 pub mod rleb;
 pub mod rprincipal;
+pub mod rsub;
+pub mod rtype;
+pub mod rval;
+pub mod rwire;
+pub mod ridl;
